@@ -62,6 +62,8 @@ Radix(dummy) == \A a \in Vals, b \in {2, 3, 7, 10, 16, 36, 37, 61, 62} :
    /\ P!ZFromDigits(P!ZDigits(a, b, al), b, al) = P!ZAbs(a)
    /\ StrStripWS(" " \o ZDigits(a, b, al) \o " \t" \o "x\n") = P!StrStripWS(" " \o ZDigits(a, b, al) \o " \t" \o "x\n")
    /\ StrLower(ZDigits(a, b, al) \o "Zz-") = P!StrLower(ZDigits(a, b, al) \o "Zz-")
+   /\ \A c \in {"0", "1", "z", "-", "e"} : /\ StrFind(ZDigits(a, b, al) \o "e-1", c) = P!StrFind(ZDigits(a, b, al) \o "e-1", c)
+                                          /\ StrLead("000" \o ZDigits(a, b, al), c) = P!StrLead("000" \o ZDigits(a, b, al), c)
    /\ StrFirstBad(ZDigits(a, b, al) \o "~" \o "1", b, al) = P!StrFirstBad(P!ZDigits(a, b, al) \o "~" \o "1", b, al)
 
 CONSTANT Family
